@@ -49,6 +49,7 @@ import AsmjitVerif.Lemmas.FaultMore
 import AsmjitVerif.Lemmas.FaultBuilder
 import AsmjitVerif.Lemmas.FaultCompiler
 import AsmjitVerif.Lemmas.FaultJit
+import AsmjitVerif.Lemmas.FaultArena
 namespace AsmjitVerif.Fault
 open AsmjitVerif
 
@@ -206,6 +207,33 @@ theorem jit_add_ok (dual needBlock relocAllocs : Bool) (o : Oracle) (r : FaultMo
     (h : (FaultMore.jitAddF dual needBlock relocAllocs o r spans).2.2.2 = true) :
     (FaultMore.jitAddF dual needBlock relocAllocs o r spans).2.2.1 = spans + 1 :=
   FaultMore.jitAddF_ok dual needBlock relocAllocs o r spans h
+
+/-! ## the arena under a per-request heap oracle (C18's model) -/
+
+/-- `arena_safe_any_heap_oracle`: every history of alloc_oneshot / alloc_reusable / free_reusable / reset in which EACH operation
+may or may not get memory from the heap keeps the arena invariant and C18's `safe` (live regions aligned, inside their blocks,
+pairwise disjoint, dynamic blocks registered) - C18's `arena_safe` fixes one heap limit for the whole history -/
+theorem arena_safe_any_heap_oracle (minBlock staticSize mallocMax : Nat) (ops : List (Arena.AOp × Bool)) :
+    Arena.Inv (FaultArena.runF ops (Arena.init minBlock staticSize mallocMax, [])).1
+              (FaultArena.runF ops (Arena.init minBlock staticSize mallocMax, [])).2 ∧
+    Arena.safe (FaultArena.runF ops (Arena.init minBlock staticSize mallocMax, [])).1
+               (FaultArena.runF ops (Arena.init minBlock staticSize mallocMax, [])).2 = true :=
+  FaultArena.arena_safe_any_heap_oracle minBlock staticSize mallocMax ops
+
+/-- `arena_reusable_fail_frontier`: when `alloc_reusable` answers null - the leftover of the current block was handed to the
+size-class lists and the heap then refused the new block - everything owned (client regions and pooled pieces, the leftover
+included) lies below the bump frontier: `alloc_oneshot` cannot hand the pooled leftover out a second time -/
+theorem arena_reusable_fail_frontier {s : Arena.State} {live : Arena.Live} (hI : Arena.Inv s live) (size : Nat)
+    (s' : Arena.State) (asz : Nat) (h : Arena.allocReusable s size = (s', none, asz)) :
+    Arena.Inv s' live ∧ ∀ pos off sz, (Arena.Loc.managed pos off, sz) ∈ Arena.owned s' live →
+      off + sz ≤ s'.blocks.getD pos 0 ∧ (pos < s'.cur ∨ (pos = s'.cur ∧ off + sz ≤ s'.ptr)) :=
+  FaultArena.reusable_fail_frontier hI size s' asz h
+
+/-- 24 bytes are left, a 100-byte pooled request needs the 128-byte class, the heap refuses the new block: null, one 16-byte
+piece was pooled at offset 1000 and `_ptr` moved past it -/
+example : (Arena.allocReusable { blocks := [1024], ptr := 1000, mallocMax := 0 } 100).2.1 = none ∧
+    (Arena.allocReusable { blocks := [1024], ptr := 1000, mallocMax := 0 } 100).1.ptr = 1016 ∧
+    (Arena.allocReusable { blocks := [1024], ptr := 1000, mallocMax := 0 } 100).1.slots.getD 0 [] = [Arena.Loc.managed 0 1000] := by decide
 
 /-! ## BaseBuilder -/
 
